@@ -276,7 +276,7 @@ def replay(case):
 
 
 MANIFEST = {
-    "text": "Exploration by runtime monitoring: after every public operation of generated histories (with cache-warming reads interleaved) an invariant monitor compares the live object's answers with a fresh parse of its own serialisation and with an independent lxml expansion, recomputes the position maps from the XML and walks the wrapper caches for orphans; tables inside a document are saved and reloaded after each step. Held = no disagreement on the steps observed.",
+    "text": "Exploration by runtime monitoring: after every public operation of generated histories (with cache-warming reads interleaved) an invariant monitor compares the live object's answers with a fresh parse of its own serialisation and with an independent lxml expansion, recomputes the position maps from the XML and walks the wrapper caches for orphans; tables inside a document are saved and reloaded after each step. Held = no disagreement on the steps observed. Also: tables of another producer declaring fewer columns than their rows hold cells, edited after cache-warming reads (live = fresh parse = independent expansion only).",
     "note": "Trusted: lxml, the independent expander (vf/oracles/tabxml.py) for the subset of ODF table structure odfdo documents; generator bounds as C01. The monitor reads the private maps (_tmap/_cmap/_rmap/_indexes) only to state the invariant the property names.",
     "technique": "runtime monitoring: state invariant at quiescent points + independent reader of the produced XML",
 }
